@@ -318,7 +318,11 @@ func (in *HInst) CheckState(exp *tla.Value, call, tr *tla.Value) []engine.Div {
 		}
 		off, err := hackpadfs.SeekFile(in.hs[i+1], 0, io.SeekCurrent)
 		if err != nil {
-			add(in.cfg.PropClosed, "state handle-unusable", fmt.Sprintf("handle %d: %v", i+1, err))
+			p := in.cfg.PropClosed
+			if call != nil && int(call.F("h").I) == i+1 && !isNs {
+				p = in.cfg.PropIO // the handle's own call (e.g. a failed Seek) left it unusable
+			}
+			add(p, "state handle-unusable", fmt.Sprintf("handle %d: %v", i+1, err))
 			continue
 		}
 		if off != hs[i].F("off").I {
